@@ -257,6 +257,22 @@ def history_cases(key, prefix, uni):
         if hasattr(obj, "stats"):
             _verdict(lambda: obj.stats(key))
             yield f"{cls.__name__}: stats(k); get(k)", _verdict(lambda: wire_of_get(obj, mod)), fresh_w
+    # refusing keys costs nothing: after any number of refused calls a bounded pool still serves the next one
+    for cls, args, kw in ((PooledClient, ("/s",), {"max_pool_size": 1}),
+                          (HashClient, (["/s"],), {"use_pooling": True, "max_pool_size": 1})):
+        def wire_of_get2(obj, mod):
+            mod.log.clear()
+            obj.get(key)
+            return b"".join(mod.log)
+
+        mod = RecModule()
+        fresh_w = _verdict(lambda: wire_of_get2(cls(*args, key_prefix=prefix, allow_unicode_keys=uni, socket_module=mod, **kw), mod))
+        mod = RecModule()
+        obj = cls(*args, key_prefix=prefix, allow_unicode_keys=uni, socket_module=mod, **kw)
+        for bad_key in (b"bad key", "tab\tkey", b"x" * 300):
+            _verdict(lambda: obj.get(bad_key))
+            _verdict(lambda: obj.set(bad_key, b"v"))
+        yield f"{cls.__name__}(max_pool_size=1): six refused calls; get(k)", _verdict(lambda: wire_of_get2(obj, mod)), fresh_w
 
 
 def _worker(job, chk):
